@@ -124,7 +124,7 @@ def expand(item, seed):
     elif k == "status":
         for st in STATUSES:
             for scheme in ("ws", "wss"):
-                for auth in (None, ["user", "secret"], ["solo", ""]):
+                for auth in (None, ["user", "secret"], ["solo", ""], ["a" * 40, "b" * 16], ["a" * 40, "b" * 17], ["a" * 100, "b" * 100]):
                     yield _base(scheme=scheme, status=st, opt_auth=auth)
     else:
         for i in range(item["start"], item["start"] + item["count"]):
@@ -136,7 +136,8 @@ def gen(rng):
     sc = _base(scheme=rng.choice(("ws", "ws", "wss")), host=host, opt_proxy=rng.random() < 0.5,
                status=rng.choice((200, 200, 200, 200) + STATUSES), seed=rng.randrange(1 << 30))
     if sc["opt_proxy"] and rng.random() < 0.3:
-        sc["opt_auth"] = rng.choice((["user", "secret"], ["u", "p:w"], ["solo", ""]))
+        sc["opt_auth"] = rng.choice((["user", "secret"], ["u", "p:w"], ["solo", ""], ["svc-account-" + "x" * 30, "p" * rng.choice((14, 15, 16, 60))],
+                                     ["u" * 57, ""], ["u" * 58, ""]))
     env = {}
     for var in ("http_proxy", "https_proxy"):
         if rng.random() < 0.45:
